@@ -199,6 +199,8 @@ def normSq [Add α] [Mul α] [Zero α] (T : Ttensor α) : Except Reject α :=
 
 end Ttensor
 
+namespace ML
+
 /-- One part of a sum tensor (also: any tensor object, for cross-representation statements). -/
 inductive Part (α : Type) where
   | dense (t : Dense α)
@@ -343,4 +345,5 @@ def ttv [Add α] [Mul α] [Zero α] [BEq α] (S : Sumtensor α) (vs : List (List
     if parts.isEmpty then .ok (.scalar scal) else .ok (.obj parts)
 
 end Sumtensor
+end ML
 end Pyttb
